@@ -19,14 +19,16 @@ theorem simpWith_fold (tbl : Op → Option Simp.Entry) (t : Term) :
 
 /-- **simplify_walk_eq_simp**: the memoised, iterative `Simplifier.walk` (callbacks = the rule table, results of the
     children looked up in the memo) computes exactly the recursive model `simp` of C01, for every term and every
-    idle walker whose memo holds `simp` values; the callback runs once per distinct sub-term not memoised before. -/
+    idle walker whose memo holds `simp` values; the callback runs once per distinct sub-term not memoised before and
+    the loop makes at most `dagBound t` = 2·(edges of the DAG)+2 iterations. -/
 theorem simplify_walk_eq_simp {M E : Type} [MemoLike M Term Term] [LawfulMemo M Term Term]
     (inval shortcut : Bool) (fuel : Nat) (t : Term) (s : WState M Term)
-    (hi : FoldIdle (fun _ => false) simp s) (hfuel : 2 * t.size ≤ fuel) :
+    (hi : FoldIdle (fun _ => false) simp s) (hfuel : dagBound t ≤ fuel) :
     let r := walk termGraph (fun _ => false) (fun _ => cbOf (E := E) (simpCb ruleOf)) inval shortcut fuel t s
     r.1 = .ok (simp t) ∧
     (∃ new, r.2.trace = new ++ s.trace ∧ new.Nodup ∧
         (∀ x, x ∈ new ↔ (x ∈ t.subterms ∧ look s.memo x = none)) ∧ r.2.calls = s.calls + new.length) ∧
+    (r.2.iters ≤ s.iters + dagBound t ∧ r.2.pushes ≤ s.pushes + dagBound t) ∧
     FoldIdle (fun _ => false) simp r.2 :=
   walk_eq_fold (simpCb ruleOf) simp (simpWith_fold ruleOf) inval shortcut fuel t s hi hfuel
 
